@@ -20,80 +20,7 @@ NO_HANDLE = {'sf_open', 'sf_open_fd', 'sf_open_virtual', 'sf_error_number', 'sf_
 RETURNS_CODE = {'sf_set_chunk', 'sf_get_chunk_size', 'sf_get_chunk_data', 'sf_error_str', 'sf_set_string', 'sf_close', 'sf_perror'}
 
 
-def run(ctx):
-    prog = ctx.prog
-    E = prog.enums
-    api = sorted([f for f in prog.lib_fns() if f.name.startswith('sf_') and not f.static and f.file.endswith('sndfile.c')], key=lambda f: f.line)
-    ctx.require(len(api) >= 38, 'only %d public functions found in sndfile.c' % len(api))
-
-    # ------------------------------------------------------------------ ENTRY
-    ctx.rule('ENTRY', 'every public function with a SNDFILE* / iterator handle tests the handle for NULL and checks the magic number before any other use of the handle, '
-             'and clears psf->error on entry (error-query functions must NOT clear it; light-weight getters only validate)', floor=30)
-    sheets = {}
-    for f in api:
-        sh = sheet(f, None)
-        sheets[f.name] = sh
-        hp = [q['n'] for q in f.params if 'SNDFILE' in q['t'] or 'sf_private_tag' in q['t'] or 'SF_CHUNK_ITERATOR' in q['t']]
-        if not hp or f.name in NO_HANDLE - {'sf_command'}:
-            continue
-        g = guards(sh)
-        conds = [c for (c, st, rv) in g]
-        flat = json.dumps(sh)
-        has_null = any(c.replace(' ', '') in ('(sndfile==0)', '((psf=sndfile)==0)') for c in conds) or '(sndfile == 0)' in flat
-        has_magic = any('->Magick !=' in c for c in conds) or '->Magick !=' in flat
-        clears = '(psf->error = 0)' in flat
-        if f.name in ERR_QUERY:
-            ok = has_null and has_magic and not clears
-            msg = 'error query: NULL test %s, magic test %s, must not clear error: %s' % (has_null, has_magic, 'does not clear' if not clears else 'CLEARS the error')
-        elif f.name in LIGHT:
-            ok = has_null and (has_magic or f.name == 'sf_write_sync')
-            msg = 'light-weight: NULL test %s, magic test %s (%s)' % (has_null, has_magic, LIGHT[f.name])
-        else:
-            ok = has_null and has_magic and clears
-            msg = 'NULL test %s, magic test %s, clears error %s' % (has_null, has_magic, clears)
-        # order: no access to other psf fields before the magic test
-        if ok and f.name not in LIGHT:
-            mi = next((i for i, c in enumerate(conds) if '->Magick !=' in c), None)
-            if mi is not None:
-                early = [c for c in conds[:mi] if 'psf->' in c and 'virtual_io' not in c and 'psf = sndfile' not in c]
-                if early:
-                    ok = False
-                    msg += '; guard(s) %s evaluated BEFORE the magic test' % early
-        ctx.ob('ENTRY', f.name, ok, f.loc(f.body), msg, None)
-
-    # ------------------------------------------------------------------ GUARD-ERR / NO-EFFECT
-    ctx.rule('GUARD-ERR', 'every top-level rejecting early return (constant failure value) of a public function stores a non-zero SFE_* constant into psf->error / sf_errno (or returns the '
-             'SFE_* code itself in the error-code returning functions); frozen non-error returns: zero-length requests, end-of-data (must zero-fill the caller buffer), error already set', floor=150)
-    ctx.rule('NO-EFFECT', 'the body of a rejecting early return contains nothing but the error store, logging, the end-of-data zero fill and (failed open) the release of the handle', floor=150)
-    for f in api:
-        g = guards(sheets[f.name])
-        for i, (cond, stmts, rv) in enumerate(g):
-            key = '%s:%s' % (f.name, cond[:60])
-            try:
-                const_ret = rv in ('0', '-1', '', 'SF_FALSE') or rv.startswith('SFE_') or rv.lstrip('-').isdigit()
-            except AttributeError:
-                const_ret = False
-            if not const_ret:
-                continue      # delegation / computed result, not a rejection
-            stores_err = any(('->error = SFE_' in s or 'sf_errno = SFE_' in s or 'sf_errno = psf->error' in s) for s in stmts)
-            ret_code = rv.startswith('SFE_') and rv != 'SFE_NO_ERROR' and f.name in RETURNS_CODE
-            zero_len = cond.replace(' ', '') in ('(len==0)', '(frames==0)', '(bytes==0)')
-            eof = 'read_current >= psf->sf.frames' in cond
-            already = cond.strip() in ('psf->error',)
-            light = f.name in LIGHT or f.name in ('sf_error', 'sf_error_number', 'sf_format_check')
-            ok = stores_err or ret_code or zero_len or already or light
-            why = 'records error' if stores_err else 'returns error code' if ret_code else 'zero-length request' if zero_len else 'error already set' if already else 'light-weight/query function' if light else ''
-            if eof and not stores_err:
-                zf = any(s.startswith('psf_memset(ptr, 0,') for s in stmts)
-                ok = zf and 'bytes < 0' not in cond
-                why = 'end of data: zero-fills the caller buffer, no error by contract' if ok else (
-                    'end-of-data guard also swallows a NEGATIVE count without recording an error' if 'bytes < 0' in cond else 'end-of-data guard does not zero-fill')
-            ctx.ob('GUARD-ERR', key, ok, f.loc(f.body), 'guard `%s` -> return %s: %s' % (cond[:90], rv, why if ok else (why or 'NO error recorded')), stmts)
-            # NO-EFFECT
-            bad = [s for s in stmts if not ('->error = ' in s or s.startswith('(sf_errno = ') or s.startswith('psf_log_printf') or s.startswith('snprintf(sf_parselog')
-                                            or s.startswith('psf_memset(ptr, 0') or s.startswith('psf_close(psf)') or s.startswith('printf(') or s.startswith('snprintf(data, datasize'))]
-            ctx.ob('NO-EFFECT', key, not bad, f.loc(f.body), 'rejecting branch of `%s` %s' % (cond[:90], 'has no side effect besides error/log/zero-fill' if not bad else 'has side effects: %s' % bad), None)
-
+def wrapper_rule(ctx, prog):
     # ------------------------------------------------------------------ WRAPPER
     ctx.rule('WRAPPER', 'within each family (read items, read frames, write items, write frames) the four typed wrappers have identical normalised fact sheets (ordered guards, '
              'error codes, return values, slot called, position / frame-count updates, zero fill sizes); each family reference and the two raw variants contain every required guard (in order) and update of the documented contract (required-fact table in the rule)', floor=16)
@@ -171,6 +98,84 @@ def run(ctx):
         f = prog.fn(name, 'sndfile.c')
         miss = contract_check(f, sheet(f, None), fam)
         ctx.ob('WRAPPER', '%s:contract' % name, not miss, f.loc(f.body), 'has every required guard (in order) and update of the documented contract' if not miss else '; '.join(miss[:4]), None)
+
+
+
+def run(ctx):
+    prog = ctx.prog
+    E = prog.enums
+    api = sorted([f for f in prog.lib_fns() if f.name.startswith('sf_') and not f.static and f.file.endswith('sndfile.c')], key=lambda f: f.line)
+    ctx.require(len(api) >= 38, 'only %d public functions found in sndfile.c' % len(api))
+
+    # ------------------------------------------------------------------ ENTRY
+    ctx.rule('ENTRY', 'every public function with a SNDFILE* / iterator handle tests the handle for NULL and checks the magic number before any other use of the handle, '
+             'and clears psf->error on entry (error-query functions must NOT clear it; light-weight getters only validate)', floor=30)
+    sheets = {}
+    for f in api:
+        sh = sheet(f, None)
+        sheets[f.name] = sh
+        hp = [q['n'] for q in f.params if 'SNDFILE' in q['t'] or 'sf_private_tag' in q['t'] or 'SF_CHUNK_ITERATOR' in q['t']]
+        if not hp or f.name in NO_HANDLE - {'sf_command'}:
+            continue
+        g = guards(sh)
+        conds = [c for (c, st, rv) in g]
+        flat = json.dumps(sh)
+        has_null = any(c.replace(' ', '') in ('(sndfile==0)', '((psf=sndfile)==0)') for c in conds) or '(sndfile == 0)' in flat
+        has_magic = any('->Magick !=' in c for c in conds) or '->Magick !=' in flat
+        clears = '(psf->error = 0)' in flat
+        if f.name in ERR_QUERY:
+            ok = has_null and has_magic and not clears
+            msg = 'error query: NULL test %s, magic test %s, must not clear error: %s' % (has_null, has_magic, 'does not clear' if not clears else 'CLEARS the error')
+        elif f.name in LIGHT:
+            ok = has_null and (has_magic or f.name == 'sf_write_sync')
+            msg = 'light-weight: NULL test %s, magic test %s (%s)' % (has_null, has_magic, LIGHT[f.name])
+        else:
+            ok = has_null and has_magic and clears
+            msg = 'NULL test %s, magic test %s, clears error %s' % (has_null, has_magic, clears)
+        # order: no access to other psf fields before the magic test
+        if ok and f.name not in LIGHT:
+            mi = next((i for i, c in enumerate(conds) if '->Magick !=' in c), None)
+            if mi is not None:
+                early = [c for c in conds[:mi] if 'psf->' in c and 'virtual_io' not in c and 'psf = sndfile' not in c]
+                if early:
+                    ok = False
+                    msg += '; guard(s) %s evaluated BEFORE the magic test' % early
+        ctx.ob('ENTRY', f.name, ok, f.loc(f.body), msg, None)
+
+    # ------------------------------------------------------------------ GUARD-ERR / NO-EFFECT
+    ctx.rule('GUARD-ERR', 'every top-level rejecting early return (constant failure value) of a public function stores a non-zero SFE_* constant into psf->error / sf_errno (or returns the '
+             'SFE_* code itself in the error-code returning functions); frozen non-error returns: zero-length requests, end-of-data (must zero-fill the caller buffer), error already set', floor=150)
+    ctx.rule('NO-EFFECT', 'the body of a rejecting early return contains nothing but the error store, logging, the end-of-data zero fill and (failed open) the release of the handle', floor=150)
+    for f in api:
+        g = guards(sheets[f.name])
+        for i, (cond, stmts, rv) in enumerate(g):
+            key = '%s:%s' % (f.name, cond[:60])
+            try:
+                const_ret = rv in ('0', '-1', '', 'SF_FALSE') or rv.startswith('SFE_') or rv.lstrip('-').isdigit()
+            except AttributeError:
+                const_ret = False
+            if not const_ret:
+                continue      # delegation / computed result, not a rejection
+            stores_err = any(('->error = SFE_' in s or 'sf_errno = SFE_' in s or 'sf_errno = psf->error' in s) for s in stmts)
+            ret_code = rv.startswith('SFE_') and rv != 'SFE_NO_ERROR' and f.name in RETURNS_CODE
+            zero_len = cond.replace(' ', '') in ('(len==0)', '(frames==0)', '(bytes==0)')
+            eof = 'read_current >= psf->sf.frames' in cond
+            already = cond.strip() in ('psf->error',)
+            light = f.name in LIGHT or f.name in ('sf_error', 'sf_error_number', 'sf_format_check')
+            ok = stores_err or ret_code or zero_len or already or light
+            why = 'records error' if stores_err else 'returns error code' if ret_code else 'zero-length request' if zero_len else 'error already set' if already else 'light-weight/query function' if light else ''
+            if eof and not stores_err:
+                zf = any(s.startswith('psf_memset(ptr, 0,') for s in stmts)
+                ok = zf and 'bytes < 0' not in cond
+                why = 'end of data: zero-fills the caller buffer, no error by contract' if ok else (
+                    'end-of-data guard also swallows a NEGATIVE count without recording an error' if 'bytes < 0' in cond else 'end-of-data guard does not zero-fill')
+            ctx.ob('GUARD-ERR', key, ok, f.loc(f.body), 'guard `%s` -> return %s: %s' % (cond[:90], rv, why if ok else (why or 'NO error recorded')), stmts)
+            # NO-EFFECT
+            bad = [s for s in stmts if not ('->error = ' in s or s.startswith('(sf_errno = ') or s.startswith('psf_log_printf') or s.startswith('snprintf(sf_parselog')
+                                            or s.startswith('psf_memset(ptr, 0') or s.startswith('psf_close(psf)') or s.startswith('printf(') or s.startswith('snprintf(data, datasize'))]
+            ctx.ob('NO-EFFECT', key, not bad, f.loc(f.body), 'rejecting branch of `%s` %s' % (cond[:90], 'has no side effect besides error/log/zero-fill' if not bad else 'has side effects: %s' % bad), None)
+
+    wrapper_rule(ctx, prog)
 
     # ------------------------------------------------------------------ ERRTABLE
     ctx.rule('ERRTABLE', 'SndfileErrors[]: every enumerator value in [0, SFE_MAX_ERROR) occurs exactly once, every message is a non-empty string, the {SFE_MAX_ERROR, NULL} terminator is last; '
